@@ -61,7 +61,7 @@ macro "unfold_light" : tactic => `(tactic|
     Ind.maApply.eq_6, Ind.maIdle, Ind.bop, Ind.cci, Ind.envelope, Ind.macd, Ind.massIndex, Ind.mls,
     Ind.mlsM, Ind.mlsB, Ind.mlr, Ind.tema, Ind.trix, Ind.vwma, Ind.weightedClose, Ind.mfm, Ind.mfv, Ind.ad, Ind.cmf,
     Ind.mfi, Ind.vpt, Ind.vwap, Ind.awesomeOscillator, Ind.chaikinOscillator, Ind.ppo, Ind.qstick, Ind.rsi,
-    Ind.accelerationBands, Ind.trueRange, Ind.atr, Ind.atrIdle, Ind.keltnerChannel, Ind.trima, Ind.trimaPeriods,
+    Ind.accelerationBands, Ind.trueRange, Ind.atr, Ind.atrIdle, Ind.keltnerChannel, Ind.keltnerChannelG, Ind.stochasticRsiG, Ind.trima, Ind.trimaPeriods,
     Ind.apo, Ind.dema, Ind.emv, Ind.fi, Ind.tsi, Ind.kdj, Ind.ichimokuCloud, Ind.stochasticOscillator, Ind.williamsR,
     Ind.donchianChannel, Ind.stochasticRsi, Ind.chandelierExit, Ind.hma, Ind.bollingerBands, Ind.bbUpper, Ind.bbLower,
     Ind.bollingerBandWidth, Ind.percentB, Ind.po,
@@ -114,6 +114,10 @@ macro_rules
      | (have := Ind.halfRound_le _ (by assumption); have := Ind.halfRound_pos _ (by assumption); omega)
      | (have := Ind.halfRound_le _ (by assumption); have := Ind.halfRound_pos _ (by assumption);
         show Ind.halfRound _ - 1 + _ + (Ind.roundSqrt _ - 1) = max (Ind.halfRound _ - 1) _ + (Ind.roundSqrt _ - 1); omega)
+     | (have h1 := Ind.halfRound_le _ (by assumption); have h2 := Ind.halfRound_pos _ (by assumption);
+        have e1 : ∀ q, Spec.halfRound q = Ind.halfRound q := fun _ => rfl
+        have e2 : ∀ q, Spec.roundSqrt q = Ind.roundSqrt q := fun _ => rfl
+        simp only [e1, e2]; omega)
      | (intro i hi; trivial)
      | (intro i hi; rfl)
      | (intro i hi; congr 3; omega)
